@@ -49,6 +49,9 @@ CLAIMED = {
     "C16": ("symbolic execution of solve_knapsack (values unbounded symbolic Reals, weights/capacity enumerated) and solve_bin_pack (sizes and capacity symbolic Reals); optimal-label and 11/9 bound against explicit subset / set-partition enumeration via z3",
             "Bounded model checking: knapsack n<=3 exhaustive over weights 0..3, capacity 0..5 (+sampled n=4, decimal grid) for ALL value vectors; bin packing n<=4, all four heuristics and aliases, ALL sizes/capacities.",
             GEN_NOTE, "DESIGN.md 4/C16"),
+    "C19": ("symbolic execution of anneal/tabu_search/lns/alns/evolve/differential_evolution/particle_swarm/nelder_mead with the objective value of every point an unbounded SMT Real and the random stream symbolic (all accept/reject and selection sequences); z3 decides the bookkeeping obligations per path",
+            "Bounded model checking: for EVERY objective function and EVERY random decision sequence within the iteration bounds: reported objective = f(returned point) in the user's sign, at least as good as every evaluated point, evaluations = number of calls, maximise f mirrors minimise -f, bounded solvers stay in bounds; reproducibility by a native double run per path witness. anneal/lns/alns exhausted; tabu/evolve/DE/PSO/NM depth-first to a path cap.",
+            GEN_NOTE + " powell/bfgs/lbfgs/bayesian_opt not covered.", "DESIGN.md 4/C19"),
     "C20": ("inductive step from an arbitrary valid state, symbolic execution of UnionFind/FenwickTree methods with z3 (parents, ranks, array contents, operands symbolic)",
             "Bounded model checking of the real methods: for every n in the bound, every state satisfying the representation invariant, every operand and every value, z3 proves RI is preserved and the answer equals the abstract partition / array answer; base case (constructors) proved for the same n. One inductive step covers histories of any length.",
             GEN_NOTE + " n bounded (UnionFind <=4 quick/<=6 thorough, Fenwick <=8/<=16).",
